@@ -55,9 +55,9 @@ Section Pure.
 Variable lit : string -> outcome litres.
 Variable re_search : string -> string -> outcome reres.
 Variable nstr : node -> string.
-Variable vstr : list rnode -> string.
-Variable kw_handler : bool -> keyword -> string -> rnode -> ctx -> gen rnode.
-Variable creator : list pseg -> nat -> rnode -> ctx -> gen rnode.
+Variable vstr : list rval -> string.
+Variable kw_handler : bool -> keyword -> string -> rval -> ctx -> gen rval.
+Variable creator : list pseg -> nat -> rval -> ctx -> gen rval.
 Hypothesis kw_pure : forall inv k ps v c, nomut (kw_handler inv k ps v c).
 
 Lemma by_key_pure self a v c : (forall e c', nomut (self e c')) -> nomut (by_key self a v c).
@@ -69,9 +69,9 @@ Proof. unfold by_index. repeat pstep. Qed.
 Lemma by_anchor_pure a v c : nomut (by_anchor a v c).
 Proof. unfold by_anchor. repeat pstep. Qed.
 
-Lemma desc_scan_pure m term inv items st matches (k : bool -> gen rnode) :
+Lemma hash_desc_scan_pure m term inv items st matches (k : bool -> gen rval) :
   pure_stop st -> (forall b, nomut (k b)) ->
-  nomut (desc_scan lit re_search nstr vstr m term inv items st matches k).
+  nomut (hash_desc_scan lit re_search nstr vstr m term inv items st matches k).
 Proof.
   intros Hst Hk. revert matches. induction items as [|d r IH]; intros matches; cbn.
   - destruct st; cbn in *; auto.
@@ -82,7 +82,7 @@ Lemma by_search_pure rq_sub inv m attr term v c :
   (forall e c', nomut (rq_sub e c')) -> nomut (by_search lit re_search nstr vstr rq_sub inv m attr term v c).
 Proof.
   intros H. unfold by_search. repeat pstep.
-  all: try (apply desc_scan_pure; [apply H | intros; repeat pstep]).
+  all: try (apply hash_desc_scan_pure; [apply H | intros; repeat pstep]).
   all: try (apply nomut_gfirst; [apply H | intros; repeat pstep]).
 Qed.
 
@@ -201,7 +201,7 @@ Lemma ev_pure : forall pf md segs i v c,
 Proof.
   induction pf as [|pf IH]; intros md segs i v c Hmd Hns; [exact I|].
   cbn [ev]. unfold ev_body.
-  set (rqp := fun (p : ppath) (v : rnode) (c : ctx) =>
+  set (rqp := fun (p : ppath) (v : rval) (c : ctx) =>
                 match p with PFail e => gerr e
                 | PPath s => ev lit re_search nstr vstr kw_handler creator pf MReq s 0 v c end).
   assert (Hrq : forall p, no_sub p = true -> forall e c', nomut (rqp p e c')).
